@@ -109,7 +109,7 @@ func replayMain(t *testing.T, h *Harness, known map[string]bool) int {
 	}
 	var seed uint64
 	fmt.Sscanf(rf.Seed, "%d", &seed)
-	spec := RunSpec{Seed: seed, Tier: rf.Tier, Prop: rf.Property, Cfg: rf.Cfg, Ops: rf.Ops, Replay: true, KeepLog: true, Known: known}
+	spec := RunSpec{BatchSeed: rf.BatchSeed, RunIndex: rf.RunIndex, Seed: seed, Tier: rf.Tier, Prop: rf.Property, Cfg: rf.Cfg, Ops: rf.Ops, Replay: true, KeepLog: true, Known: known}
 	r := RunOne(t, h, spec)
 	if *fLog {
 		for _, l := range r.Log {
@@ -161,7 +161,7 @@ func batchMain(t *testing.T, h *Harness, known map[string]bool) int {
 			break
 		}
 		seed := Mix(*fSeed, k)
-		spec := RunSpec{Seed: seed, Tier: *fTier, Prop: *fProp, Known: known, KeepLog: *fLog}
+		spec := RunSpec{BatchSeed: *fSeed, RunIndex: k, Seed: seed, Tier: *fTier, Prop: *fProp, Known: known, KeepLog: *fLog}
 		w0 := time.Now()
 		r := RunOne(t, h, spec)
 		wall := time.Since(w0)
